@@ -1119,6 +1119,18 @@ class Interp:
         return getattr(base, attr)(*args)
       if isinstance(base, NpVec) and attr == 'tolist' and not args:
         return list(base)
+      if _is_num(base) and attr == 'astype' and args:
+        t = args[0]
+        tname = getattr(t, 'name', None) or ''
+        bits = {'int8': 8, 'int16': 16, 'int32': 32, 'int64': 64, 'uint8': 8, 'uint16': 16, 'uint32': 32, 'uint64': 64}.get(tname.split('.')[-1])
+        if bits is not None:
+          signed = not tname.split('.')[-1].startswith('u')
+          lo, hi = (-(1 << (bits - 1)), (1 << (bits - 1)) - 1) if signed else (0, (1 << bits) - 1)
+          if not lo <= base <= hi:
+            # numpy would wrap around (or invoke undefined behaviour for floats): never a value the caller meant
+            raise _Raise('OverflowError', f'{base} cast to {tname} wraps around', node)
+          return int(base) if base == int(base) else int(base)
+        return base
       if _is_num(base) and attr in ('astype', 'item', 'flatten', 'copy', 'squeeze'):
         return base   # a numpy scalar stays the same number
       if isinstance(base, bytes) and attr in ('decode', 'startswith', 'endswith'):
